@@ -17,6 +17,7 @@ import (
 // reply it returns, (c) the reader drops the waiter (and so closes the connection) when the id of the message it read
 // is not the registered one.
 func checkReuseIdMatch(c *Ctx, lf *lockFacts) {
+	checkReuseQueryBufferPerAttempt(c)
 	T := relTransport + "."
 	ex := c.fn(relTransport, "reusableConn", "exchange")
 	rl := c.fn(relTransport, "reusableConn", "readLoop")
@@ -459,6 +460,7 @@ func checkCacheNeverStoresOpt(c *Ctx) {
 // answers — every saveRespToCache call of the plugin is guarded by answersQuestion(r, <question captured when the key
 // was built>).
 func checkStoreAnswersQuestion(c *Ctx) {
+	checkQuestionSnapshotBeforeChain(c)
 	n, bad := 0, ""
 	for _, f := range c.P.funcsIn(relCachePlugin) {
 		fn := f
@@ -675,6 +677,7 @@ func checkDumpSkipsBadEntries(c *Ctx, limit int64) {
 // checkCloseStopsDumpLoopFirst (D31; C19-R11): Close stops the periodic dump loop and waits for it before it writes the
 // final dump — two dumps never write the file at once.
 func checkCloseStopsDumpLoopFirst(c *Ctx) {
+	checkFinalDumpSeesLiveBackend(c)
 	cl := c.fn(relCachePlugin, "Cache", "Close")
 	sl := c.fn(relCachePlugin, "Cache", "startDumpLoop")
 	if cl == nil || sl == nil {
@@ -932,7 +935,7 @@ func checkStreamServerAnswersInflight(c *Ctx) {
 	for _, a := range st.AnonFuncs {
 		reads := false
 		eachInstr(a, func(in ssa.Instruction) {
-			if ci, ok := in.(*ssa.Call); ok && strings.HasSuffix(callName(ci), "dnsutils.ReadMsgFromTCP") {
+			if ci, ok := in.(*ssa.Call); ok && (strings.HasSuffix(callName(ci), "dnsutils.ReadMsgFromTCP") || strings.HasSuffix(callName(ci), "server.readQueryFromStream")) {
 				reads = true
 			}
 		})
